@@ -235,10 +235,14 @@ def _run_stream_init_sync(
                 app._server._check_protocol_version(md.get(PROTOCOL_VERSION_KEY) if md is not None else None)
             try:
                 _deserialize_params(kwargs, info.param_types, app._server.ipc_validation)
-            except (KeyError, ValueError) as exc:
+            except (KeyError, ValueError, OSError) as exc:
                 # Keep caller-value conversion failures in the HTTP 400 path
                 # without treating external-location resolver failures raised
                 # before deserialization as malformed Arrow.
+                # OSError: a dataclass parameter travels as a nested Arrow IPC stream
+                # held in memory, and Arrow reports a short message body or an
+                # invalid flatbuffer in it as an IOError -- a bad parameter value,
+                # not an I/O failure (nothing here touches storage or a socket).
                 raise TypeError(str(exc)) from exc
             # See the note in _app_unary.py: caller-controlled shape is refused
             # while the request is still being validated, so anything the init
